@@ -19,7 +19,7 @@ THEOREMS = [
     "C06_roundtrip_multi", "C06_roundtrip_single_partial", "C06_roundtrip_default_format",
     "C06_roundtrip_default_format_plain_partial", "C06_roundtrip_any_options_partial", "C06_roundtrip_multi_any_order",
     "C06_roundtrip_single_any_order_partial", "C06_edges_roundtrip_multi", "C06_wf_satisfiable",
-    "C06_former_findings_roundtrip", "C06_single_requirer_named_via_refuted",
+    "C06_second_run_roundtrip", "C06_second_run_satisfiable", "C06_former_findings_roundtrip", "C06_single_requirer_named_via_refuted",
     "C06_gen_constants_ok",
 ]
 RULE = ("random dependency graphs (1-7 projects; names with dots/dashes/case, epochs, pre/post/dev/local versions, "
@@ -29,7 +29,10 @@ RULE = ("random dependency graphs (1-7 projects; names with dots/dashes/case, ep
         "urls x annotate, with index/find-links directives) and by the extracted Coq `write`; texts must be equal.  Every text (plus ~15% mutated / malformed "
         "texts) is loaded by the real SolutionRepository and by the Coq `load`: the _add_sources call trace, the "
         "exception class, the pins (name, version, hash, URL), reverse-dependency sets and the reconstructed "
-        "requirer->project requirements (specifier, extras, marker extra) must agree.  pip's parse_requirements reads "
+        "requirer->project requirements (specifier, extras, marker extra) must agree.  Second run: every written text is fed back (loaded, the same "
+        "inputs compiled against that solution alone) and written again under another option set, all 24 x 24 pairs cycled "
+        "through; the second text must be the model's text for the second graph's view, must load like the model says, and the "
+        "pins must be those the model reads from the first text.  pip's parse_requirements reads "
         "the unmutated texts as a second oracle.  Non-trivial = a case whose text has >= 2 pins and at least one "
         "specifier or extra on an edge; distinct = distinct (text) / (view, options).")
 TRUSTED_BASE = [
@@ -842,10 +845,12 @@ def correspondence(ctx: Ctx) -> None:
             except Exception as ex:  # noqa: BLE001
                 common.reraise_harness_fault(ex)     # the fake clock / fake repositories are the harness's
                 ctx.count("writer-exception:" + type(ex).__name__)
+                ctx.mismatch("writer-exception", {"graph": g, "opts": model_opts(R, g, list(repo), multi, hashes, urls, annotate, view)},
+                             type(ex).__name__ + ": " + str(ex)[:120], "a text (the model's writer is total)")
                 continue
             o = model_opts(R, g, list(repo), multi, hashes, urls, annotate, view)
             wlines.append("W " + opts_tokens(o) + " " + view_tokens(view))
-            wmeta.append({"graph": g, "opts": o, "view": view, "text": text})
+            wmeta.append({"graph": g, "opts": o, "view": view, "text": text, "gi": gi, "mode": (multi, hashes, urls, annotate)})
     answers = run_model("C06", wlines)
     if len(answers) != len(wlines):
         ctx.obligation_broken("model-runner:C06", f"{len(answers)} answers for {len(wlines)} cases")
@@ -894,6 +899,7 @@ def correspondence(ctx: Ctx) -> None:
         ctx.case(key=("L", text), nontrivial=(cls == "ok-graph" and len(model.get("view", [])) >= 2 and any(e[2] or e[3] for e in model["edges"])),
                  sample={"kind": "load", "text": text, "real": real["status"], "model": model["status"]} if ctx.evaluations % 997 == 0 else None)
         if meta is not None:
+            meta["loaded"] = model
             wf_meta.append((text, meta, real, model))
     # round trip as the theorems state it: where wf holds (on the canonical view) the real loader returns the view
     canon_ans = run_model("C06", ["K " + view_tokens(m["view"]) for _, m, _, _ in wf_meta])
@@ -917,9 +923,109 @@ def correspondence(ctx: Ctx) -> None:
                 ctx.mismatch("roundtrip-model", {"opts": o, "view": meta["view"]}, expect, got)
             if real["status"] != "OK":
                 ctx.mismatch("roundtrip-real", {"opts": o, "view": meta["view"], "text": text}, "OK", real["status"])
+    # the file is fed back and written again under another option set
+    second_run_stream(R, ctx, wmeta, sol_path)
     # pip
     pip_checks(R, ctx, [(t, m) for (t, m) in texts][: ctx.n(400, 6000)], sol_path)
     coq_recheck(ctx, [m for _, m in texts], load_models)
+
+
+def second_compile(R, g: Dict[str, Any], text: str, path: str):
+    """Feed a written solution back: load it and compile the same inputs against it alone."""
+    import req_compile.compile as comp
+    with open(path, "w", encoding="utf-8", newline="") as fh:
+        fh.write(text)
+    R.utils.parse_requirement.cache_clear()
+    sol = R.solution.SolutionRepository(path)
+    infos = [R.DistInfo(r["name"], None, [R.utils.parse_requirement(x) for x in r["reqs"]], meta=True) for r in g["roots"]]
+    results, roots = comp.perform_compile(infos, sol)
+    return sol, infos, results, roots
+
+
+def second_opts(R, sol, g: Dict[str, Any], mode, view: List[Dict[str, Any]]) -> Dict[str, Any]:
+    multi, hashes, urls, annotate = mode
+    annot = None
+    if annotate:
+        me = R.pkg_resources.working_set.find(R.pkg_resources.Requirement.parse("req_compile"))
+        annot = {"ver": me.version if me else "dev", "time": FIXED_TIME, "inputs": [r["name"] for r in g["roots"]],
+                 "repos": [str(sol)], "idx": [(p["name"], "0") for p in view]}
+    return {"multi": multi, "hashes": hashes, "urls": urls, "annot": annot, "index": [], "links": []}
+
+
+def plain_names(R, g: Dict[str, Any]) -> bool:
+    """No project whose name the loader takes for a file path, no separator runs (both known findings)."""
+    for p in g["projects"]:
+        nm = p["name"]
+        if nm.endswith((".txt", ".out")) or "/" in nm or "\\" in nm or SEP_RUN.search(nm):
+            return False
+    return not any(SEP_RUN.search(r["name"]) and not (r["name"].endswith((".txt", ".out")) or "/" in r["name"] or "\\" in r["name"])
+                   for r in g["roots"])
+
+
+def second_run_stream(R, ctx: Ctx, wmeta: List[Dict[str, Any]], sol_path: str) -> None:
+    """Write under option set A, load, compile the same inputs against that solution alone, write under option set B:
+    all pairs (A, B) of the 24 option sets are cycled through.  The second text must be the model's text for the view of
+    the second graph, must load like the model says, and the pins must be those of the first run."""
+    rng = ctx.rng
+    by_graph: Dict[int, Dict[Any, Dict[str, Any]]] = {}
+    for m in wmeta:
+        by_graph.setdefault(m["gi"], {})[m["mode"]] = m
+    pairs = [(a, b) for a in ALL_MODES for b in ALL_MODES]
+    rng.shuffle(pairs)
+    ptr = 0
+    per_graph = ctx.n(16, 48)
+    cases: List[Dict[str, Any]] = []
+    for gi, metas in by_graph.items():
+        todo: Dict[Any, List[Any]] = {}
+        for _ in range(per_graph):
+            a, b = pairs[ptr % len(pairs)]
+            ptr += 1
+            todo.setdefault(a, []).append(b)
+        for a, bs in todo.items():
+            m = metas.get(a)
+            if m is None:
+                continue
+            g = m["graph"]
+            try:
+                sol, infos, results, roots = second_compile(R, g, m["text"], sol_path)
+            except Exception as ex:  # noqa: BLE001
+                common.reraise_harness_fault(ex)
+                ctx.count("second-run:not-compiled:" + exc_class(R, ex))
+                continue
+            view2 = observe_view(R, results, roots, rng)
+            if plain_names(R, g) and graph_in_guard(R, g, a) and m.get("loaded", {}).get("status") == "OK":
+                # C05's reading, checked here only as far as the file carries it: the second graph has the pins (version, hash,
+                # URL) that the model reads from the first text
+                want = sorted((p["name"], p["version"], p["hash"], p["url"]) for p in m["loaded"]["view"])
+                got = sorted((p["name"], p["version"], p["hash"], p["url"]) for p in view2)
+                if want != got:
+                    ctx.mismatch("second-run-pins", {"graph": g, "opts": m["opts"]}, got, want)
+            for b in bs:
+                o2 = second_opts(R, sol, g, b, view2)
+                ctx.count("second-run:pair")
+                try:
+                    text2 = real_write(R, results, roots, infos, sol, *b)
+                except Exception as ex:  # noqa: BLE001
+                    common.reraise_harness_fault(ex)
+                    ctx.count("second-run:writer-exception:" + type(ex).__name__)
+                    ctx.mismatch("second-run-writer-exception", {"graph": g, "opts": m["opts"], "second": list(b)},
+                                 type(ex).__name__ + ": " + str(ex)[:120], "a text (the model's writer is total)")
+                    continue
+                cases.append({"graph": g, "opts": m["opts"], "second": list(b), "opts2": o2, "view2": view2, "text2": text2})
+    if not cases:
+        return
+    answers = run_model("C06", ["W " + opts_tokens(c["opts2"]) + " " + view_tokens(c["view2"]) for c in cases])
+    lanswers = run_model("C06", ["L " + hx(c["text2"]) for c in cases])
+    for c, ans, lans in zip(cases, answers, lanswers):
+        key = {"graph": c["graph"], "opts": c["opts"], "second": c["second"]}
+        ctx.case(key=("W2", json.dumps(c["opts2"], sort_keys=True), c["text2"]), nontrivial=nontrivial_view(c["view2"]))
+        mtext = unhx(ans) if not ans.startswith("!") else ans
+        if mtext != c["text2"]:
+            ctx.mismatch("second-run-writer-text", key, c["text2"], mtext)
+        model = parse_load_answer(lans)
+        real = real_load(R, c["text2"], sol_path)
+        cls = compare_load(R, ctx, "second-run-loader", c["text2"], real, model)
+        ctx.count("second-run:load:" + cls)
 
 
 def pip_checks(R, ctx: Ctx, items, sol_path: str) -> None:
@@ -1101,9 +1207,12 @@ def view_of_real_load(R, real: Dict[str, Any]) -> Any:
             "edges": [e for e in real["edges"]]}
 
 
-def oracle_roundtrip(R, g: Dict[str, Any], mode: Tuple[bool, bool, bool, bool], tmp: str, repos_list: Optional[List[Any]] = None) -> Optional[str]:
+def oracle_roundtrip(R, g: Dict[str, Any], mode: Tuple[bool, bool, bool, bool], tmp: str, repos_list: Optional[List[Any]] = None,
+                     second_modes: Optional[List[Any]] = None) -> Optional[str]:
     """The property statement on the real code only: write the graph, load the text, compare pins, hashes, URLs and the
-    project-requirer edges with the graph that was written; and ask pip.  Returns a reason when violated."""
+    project-requirer edges with the graph that was written; and ask pip.  With second_modes: feed the file back (compile the
+    same inputs against it alone) and write it again under each of those option sets - every one must be written and read
+    back with the same pins.  Returns a reason when violated."""
     multi, hashes, urls, annotate = mode
     repos_list = repos_list or [R.FakeRepo("main"), R.FakeRepo("second")]
     repo = R.MultiRepository(repos_list)
@@ -1137,7 +1246,7 @@ def oracle_roundtrip(R, g: Dict[str, Any], mode: Tuple[bool, bool, bool, bool], 
                     # inputs (file paths) are requirers the loader keeps no node for; the test is made on the
                     # requirer as written, i.e. with its marker extras in brackets
                     rtext = rn + ("[" + ",".join(mex) + "]" if mex else "")
-                    if rtext.endswith(".txt") or rtext.endswith(".out") or "/" in rtext or "\\" in rtext:
+                    if rdep.metadata.meta and (rtext.endswith(".txt") or rtext.endswith(".out") or "/" in rtext or "\\" in rtext):
                         continue
                     want_edges.append((norm(rn), md.name, tuple(sorted(e.lower() for e in rq.extras)), str(rq.specifier), mex))
     got_pins = {k: (p["name"], p["version"], p["hash"], p["url"]) for k, p in real["pins"].items()}
@@ -1157,6 +1266,24 @@ def oracle_roundtrip(R, g: Dict[str, Any], mode: Tuple[bool, bool, bool, bool], 
         want = sorted((v[0] + "==" + v[1], [v[2]] if v[2] else []) for v in want_pins.values())
         if sorted(pp) != want:
             return "pip reads different pins/hashes"
+    for b in (second_modes or []):
+        b = tuple(b)
+        try:
+            sol, infos, results, roots2 = second_compile(R, g, text, path)
+        except Exception as ex:  # noqa: BLE001
+            return "the written file cannot be compiled against: " + type(ex).__name__
+        try:
+            text2 = real_write(R, results, roots2, infos, sol, *b)
+        except Exception as ex:  # noqa: BLE001
+            return f"the file written under {list(mode)} is fed back and {list(b)} is asked for: the writer raises {type(ex).__name__}: {str(ex)[:80]}"
+        real2 = real_load(R, text2, path)
+        if real2["status"] != "OK":
+            return f"second run under {list(b)}: the written file is rejected by the loader: " + real2["status"]
+        want2 = {k: (v[0], v[1], v[2] if b[1] else None, v[3] if b[2] else None) for k, v in want_pins.items()}
+        got2 = {k: (p["name"], p["version"], p["hash"], p["url"]) for k, p in real2["pins"].items()}
+        if got2 != want2:
+            diff = sorted(k for k in set(got2) | set(want2) if got2.get(k) != want2.get(k))[:3]
+            return f"second run under {list(b)}: pins differ for {diff}: expected {[want2.get(k) for k in diff]} read {[got2.get(k) for k in diff]}"
     return None
 
 
@@ -1177,6 +1304,10 @@ def graph_in_guard(R, g: Dict[str, Any], mode) -> bool:
         for rq in p["reqs"]:
             if rq.count('extra ==') > 1:
                 return False
+    for p in g["projects"]:
+        nm = p["name"]
+        if nm.endswith((".txt", ".out")) or "/" in nm or "\\" in nm:
+            return False     # a project the loader takes for an input file: no edges from it (known finding)
     names = [p["name"] for p in g["projects"]] + [r["name"] for r in g["roots"]]
     for nm in names:
         is_path = nm.endswith((".txt", ".out")) or "/" in nm or "\\" in nm
@@ -1198,18 +1329,19 @@ def search(ctx: Ctx) -> Optional[Dict[str, Any]]:
         c = mm.get("case")
         if isinstance(c, dict) and "graph" in c:
             o = c["opts"]
-            suspects.append((c["graph"], (o["multi"], o["hashes"], o["urls"], o["annot"] is not None)))
+            suspects.append((c["graph"], (o["multi"], o["hashes"], o["urls"], o["annot"] is not None),
+                             [c["second"]] if c.get("second") else [rng.choice(ALL_MODES)]))
     for _ in range(ctx.n(2500, 20000)):
-        suspects.append((gen_graph(rng, R), rng.choice(ALL_MODES)))
-    for g, mode in suspects:
+        suspects.append((gen_graph(rng, R), rng.choice(ALL_MODES), [rng.choice(ALL_MODES)]))
+    for g, mode, second in suspects:
         try:
-            if not graph_in_guard(R, g, tuple(mode)):
+            if not graph_in_guard(R, g, tuple(mode)) or not all(graph_in_guard(R, g, tuple(b)) for b in second):
                 continue
-            why = oracle_roundtrip(R, g, tuple(mode), tmp)
+            why = oracle_roundtrip(R, g, tuple(mode), tmp, second_modes=second)
         except Exception as ex:  # noqa: BLE001
             why = None
         if why:
-            return {"kind": "graph", "input": {"graph": g, "mode": list(mode)}, "why": why}
+            return {"kind": "graph", "input": {"graph": g, "mode": list(mode), "second": [list(b) for b in second]}, "why": why}
     return None
 
 
@@ -1218,12 +1350,13 @@ def replay(ctx: Ctx, payload: Dict[str, Any]) -> bool:
     fi = payload.get("failing_input")
     if not fi:
         return False
-    return oracle_roundtrip(R, fi["input"]["graph"], tuple(fi["input"]["mode"]), str(ctx.tmpdir())) is not None
+    return oracle_roundtrip(R, fi["input"]["graph"], tuple(fi["input"]["mode"]), str(ctx.tmpdir()),
+                            second_modes=fi["input"].get("second")) is not None
 
 
 def replay_known(ctx: Ctx, entry: Dict[str, Any]) -> Optional[bool]:
     R = _imports()
     path = common.VERIF / entry["replay"]
     e = json.loads(path.read_text())
-    why = oracle_roundtrip(R, e["graph"], tuple(e["mode"]), str(ctx.tmpdir()))
+    why = oracle_roundtrip(R, e["graph"], tuple(e["mode"]), str(ctx.tmpdir()), second_modes=e.get("second"))
     return why is not None
